@@ -6,7 +6,7 @@ From FT.lib Require Import Num Arr ArrLemmas Lower NumArr.
 From FT.gen Require Import Common Interp2d Interp3d Vinterp2d Vinterp3d FteikCommon Fteik2d Fteik3d Ray2d Ray3d.
 From FT.model Require Import Api.
 From FT.proofs Require Import Sweep2dProofs OperatorsR ApiProofs.
-From FT.proofs Require Operators3R InitSym InitExact.
+From FT.proofs Require Operators3R InitSym InitExact SolveScale2d.
 Import ListNotations.
 Open Scope R_scope.
 
@@ -197,6 +197,76 @@ Theorem C05_init_down_is_transpose_of_east :
         get 0%Z (snd r') [j; i; 0%Z] = get 0%Z (snd r) [i; j; 1%Z]).
 Proof. exact @InitSym.down_is_transpose_of_east_explicit. Qed.
 
+(* the WHOLE 2D solver under slowness scaling by any c > 0: the scaled problem returns, vzero x c, every traveltime x c (or the placeholder in both runs) - under the placeholder caveats Hinit (initial grids reach the same nodes) and Hsweep (a condition on the reference run: candidates stay on one side of 1e5), i.e. outside findings F10/F11 *)
+Theorem C05_solve2d_scale_slowness :
+  forall (c : R) (slow : arr R) (dz dx zsrc xsrc : R) (nsweep : Z) (grad : bool) (tt g : arr R) (vz : R),
+       0 < c ->
+       0 < dz ->
+       0 < dx ->
+       (1 <= dim slow 0)%Z ->
+       (1 <= dim slow 1)%Z ->
+       NonNeg2d.nonneg slow ->
+       fteik2d slow dz dx zsrc xsrc nsweep grad = Ok (tt, g, vz) ->
+       SolveScale2d.SameReach (dim slow 0 + 1) (dim slow 1 + 1) (Solve2dProofs.i_tt slow dz dx zsrc xsrc grad)
+         (Solve2dProofs.i_tt (smap c slow) dz dx zsrc xsrc grad) ->
+       SolveScale2d.SweepCav c slow dz dx zsrc xsrc nsweep grad ->
+       exists tt' g' : arr R,
+         fteik2d (smap c slow) dz dx zsrc xsrc nsweep grad = Ok (tt', g', c * vz) /\
+         InitExact.TRel (dim slow 0 + 1) (dim slow 1 + 1) c tt tt' /\
+         SolveScale2d.SameReach (dim slow 0 + 1) (dim slow 1 + 1) tt tt'.
+Proof. exact @SolveScale2d.fteik2d_scale_slowness. Qed.
+
+(* and under scaling of dz, dx and the source by c (grid coordinates, cells, iflag unchanged) *)
+Theorem C05_solve2d_scale_length :
+  forall (c : R) (slow : arr R) (dz dx zsrc xsrc : R) (nsweep : Z) (grad : bool) (tt g : arr R) (vz : R),
+       0 < c ->
+       0 < dz ->
+       0 < dx ->
+       (1 <= dim slow 0)%Z ->
+       (1 <= dim slow 1)%Z ->
+       NonNeg2d.nonneg slow ->
+       fteik2d slow dz dx zsrc xsrc nsweep grad = Ok (tt, g, vz) ->
+       SolveScale2d.SameReach (dim slow 0 + 1) (dim slow 1 + 1) (Solve2dProofs.i_tt slow dz dx zsrc xsrc grad)
+         (Solve2dProofs.i_tt slow (c * dz) (c * dx) (c * zsrc) (c * xsrc) grad) ->
+       SolveScale2d.SweepCav c slow dz dx zsrc xsrc nsweep grad ->
+       exists tt' g' : arr R,
+         fteik2d slow (c * dz) (c * dx) (c * zsrc) (c * xsrc) nsweep grad = Ok (tt', g', vz) /\
+         InitExact.TRel (dim slow 0 + 1) (dim slow 1 + 1) c tt tt' /\
+         SolveScale2d.SameReach (dim slow 0 + 1) (dim slow 1 + 1) tt tt'.
+Proof. exact @SolveScale2d.fteik2d_scale_length. Qed.
+
+(* the scaled problem raises iff the reference problem does (no caveat) *)
+Theorem C05_solve2d_scale_raises :
+  forall (c : R) (k : InitExact.skind) (slow : arr R) (dz dx zsrc xsrc : R) (nsweep : Z) (grad : bool),
+       0 < c ->
+       fteik2d (InitExact.sc_slow k c slow) (InitExact.sc_h k c dz) (InitExact.sc_h k c dx) 
+         (InitExact.sc_h k c zsrc) (InitExact.sc_h k c xsrc) nsweep grad = Raise ValueError <->
+       fteik2d slow dz dx zsrc xsrc nsweep grad = Raise ValueError.
+Proof. exact @SolveScale2d.fteik2d_scale_raises. Qed.
+
+(* numeric form of the caveat for c >= 1: c * (M + N * 2 h S) < 1e5 *)
+Theorem C05_solve2d_scale_slowness_bounded :
+  forall (c : R) (slow : arr R) (dz dx zsrc xsrc : R) (nsweep : Z) (grad : bool) (tt g : arr R) (vz M M' h S0 : R),
+       1 <= c ->
+       0 < dz <= h ->
+       0 < dx <= h ->
+       (1 <= dim slow 0)%Z ->
+       (1 <= dim slow 1)%Z ->
+       0 <= S0 ->
+       SolveScale2d.SlowBnd S0 slow ->
+       0 <= M ->
+       SolveScale2d.Bnd M (Solve2dProofs.i_tt slow dz dx zsrc xsrc grad) ->
+       0 <= M' < Fteik2d.Big ->
+       SolveScale2d.Bnd M' (Solve2dProofs.i_tt (smap c slow) dz dx zsrc xsrc grad) ->
+       c * (M + INR (length (SolveScale2d.all_steps (dim slow 0 + 1) (dim slow 1 + 1) nsweep)) * (2 * h * S0)) <
+       Fteik2d.Big ->
+       fteik2d slow dz dx zsrc xsrc nsweep grad = Ok (tt, g, vz) ->
+       exists tt' g' : arr R,
+         fteik2d (smap c slow) dz dx zsrc xsrc nsweep grad = Ok (tt', g', c * vz) /\
+         InitExact.TRel (dim slow 0 + 1) (dim slow 1 + 1) c tt tt' /\
+         SolveScale2d.SameReach (dim slow 0 + 1) (dim slow 1 + 1) tt tt'.
+Proof. exact @SolveScale2d.fteik2d_scale_slowness_bounded. Qed.
+
 Print Assumptions C05_t_ana_scale_slowness.
 Print Assumptions C05_t_ana_scale_length.
 Print Assumptions C05_t_anad_scale_slowness.
@@ -213,3 +283,7 @@ Print Assumptions C05_init_scale_slowness.
 Print Assumptions C05_init_scale_length.
 Print Assumptions C05_init_scale_slowness_ge1.
 Print Assumptions C05_init_down_is_transpose_of_east.
+Print Assumptions C05_solve2d_scale_slowness.
+Print Assumptions C05_solve2d_scale_length.
+Print Assumptions C05_solve2d_scale_raises.
+Print Assumptions C05_solve2d_scale_slowness_bounded.
